@@ -30,7 +30,9 @@ BUDGET = {
 def lb_ops(max_ops=100, with_time=False):
   pairs = [
       (9, st.just(['dispatch'])),
-      (5, st.tuples(st.just('complete'), st.integers(0, 40), st.sampled_from(['reply', 'reply', 'error', 'reply_chain'])).map(list)),
+      # a call whose own response handler (a sink above the balancer) fails on the answer
+      (1, st.just(['dispatch', 'handler_raises'])),
+      (5, st.tuples(st.just('complete'), st.integers(0, 40), st.sampled_from(['reply', 'reply', 'error', 'reply_chain', 'reply_raises'])).map(list)),
       (1, st.tuples(st.just('dup'), st.integers(0, 40)).map(list)),
       (1, st.tuples(st.just('down'), st.integers(0, 8), st.booleans()).map(list)),
       (1, st.tuples(st.just('up'), st.integers(0, 8)).map(list)),
